@@ -85,6 +85,9 @@ func (c *Float) adaptiveEncoding(in []byte, out []byte) ([]byte, error) {
 		}
 
 		out, err = GorillaEncoding(in, out)
+		if err != nil {
+			return
+		}
 		out = append(out[:1], out...)
 		out[0] = floatCompressedGorilla << 4
 	}()
@@ -221,7 +224,9 @@ func GenerateContext(values []float64) *Context {
 			distinctCount++
 		}
 
-		if !ctx.extremeDataValues && math.IsNaN(values[i]) {
+		// the gorilla encoder cannot take NaN (its end marker) and detects it by summing the values:
+		// +Inf and -Inf sum to NaN as well, so infinities are extreme values too
+		if !ctx.extremeDataValues && (math.IsNaN(values[i]) || math.IsInf(values[i], 0)) {
 			ctx.extremeDataValues = true
 		}
 	}
